@@ -14,6 +14,7 @@ CONSTANTS
   McKinds = {}
 INIT TInit
 NEXT TNext
+INVARIANTS ProjectionSound
 PROPERTIES SupplyNeverIncreases
 POSTCONDITION Post
 CHECK_DEADLOCK FALSE
